@@ -63,13 +63,15 @@ func workerMain() {
 			out.Flush()
 			continue
 		}
-		if c := line[0]; c == 'P' || c == 'Q' || c == 'M' {
+		if c := line[0]; c == 'P' || c == 'Q' || c == 'M' || c == 'H' {
 			var rep wReply
 			switch c {
 			case 'P':
 				rep = protoServe(strings.TrimSpace(line[1:]))
 			case 'Q':
 				rep = equalServe(strings.TrimSpace(line[1:]))
+			case 'H':
+				rep = heldServe(strings.TrimSpace(line[1:]))
 			default:
 				rep = miscServe()
 			}
